@@ -504,7 +504,7 @@ def _gen_step(rng, kind, vals):
         idx = []
         for s in A(i).shape:
             r = rng.random()
-            if r < 0.15:
+            if r < 0.2:
                 idx.append(rng.randrange(-s, s))
             elif r < 0.35:
                 idx.append([None, None, None])
